@@ -282,7 +282,9 @@ pub fn run(out: &mut Out, seed: u64, tier: &str) {
     if tier == "thorough" { for z in 1..=118usize { for p in partners.iter() { pair_list.push((z, *p)); } } }
     for (zi, zj) in pair_list {
         let d0 = 1.3 * (radius(zi) + radius(zj));
-        for f in [1.06, 1.6] {
+        // (also far out, where the whole gradient is 1e-9 .. 1e-5 kcal/mol/A: "one part in 1e6 of the largest component" has no floor)
+        for f in [1.06, 1.6, 4.0, 9.0] {
+            if f > 2.0 && zi != zj && tier != "thorough" { continue; }
             let d = d0 * f;
             let g = Mol { name: format!("pair-{}-{}", zi, zj), zs: vec![zi, zj], xs: vec![[0.1, -0.2, 0.3], [0.1 + d * 0.48, -0.2 + d * 0.6, 0.3 - d * 0.64]] };
             let mol = match catch(|| g.build()) { Some(x) => x, None => continue };
